@@ -48,6 +48,15 @@ DevHelperOfSibling(w) == ByName(w, w.p1) /\ ~EffEnumMeth(w, w.p2)
 \* kind "emptypath": wrapErrorsUsing on a method whose failing conversion has no field, index or key above it (M1(*string) (*int, error)):
 \* the wrap package is still called (with no elements) and therefore imported
 WProgsP == {[kind |-> "emptypath", pc |-> "using", p1 |-> "absent", p2 |-> "absent"]}
+\* kind "zeroflag": useZeroValueOnPointerInconsistency (absent / yes / no) on the converter and on two declared methods Mk(SZk) TZk with a
+\* direct field Q *int -> int (the method's own value decides) and a field W of named struct types Wrap{P *int} -> Wrap2{P int}, whose
+\* conversion is a generated helper shared by both methods (the converter's value decides).  Generation succeeds iff every such
+\* position has the setting in effect.
+WProgsZ == {[kind |-> "zeroflag", pc |-> a, p1 |-> b, p2 |-> c] : a \in Placements3, b \in Placements3, c \in Placements3}
+ZeroLines(pl) == IF pl = "absent" THEN <<>> ELSE <<[key |-> "useZeroValueOnPointerInconsistency", val |-> pl]>>
+EffZeroConv(w) == Effective(<<>>, ZeroLines(w.pc), <<>>, "zero")
+EffZeroMeth(w, pl) == Effective(<<>>, ZeroLines(w.pc), ZeroLines(pl), "zero")
+ZeroOK(w) == EffZeroConv(w) /\ EffZeroMeth(w, w.p1) /\ EffZeroMeth(w, w.p2)
 LinesOf(pl) == IF pl = "absent" THEN <<>> ELSE <<[key |-> "wrapErrors", val |-> pl]>>
 EffConvW(w) == Effective(<<>>, LinesOf(w.pc), <<>>, "wrapErrors")
 EffMethW(w, pl) == Effective(<<>>, LinesOf(w.pc), LinesOf(pl), "wrapErrors")
